@@ -49,9 +49,15 @@ type CrashRun struct {
 	Size     int       `json:"size"`
 }
 
-// copyTree copies a cache directory keeping access and modification times (the loader orders by atime).
-func copyTree(src, dst string) error {
-	return filepath.WalkDir(src, func(p string, d fs.DirEntry, err error) error {
+// fileTimes are the access and modification times of the files of a kill image, as they were in
+// the directory the image was taken from (reading a file may change its access time, and the loader orders by it).
+type fileTimes map[string][2]time.Time
+
+// copyTree copies a cache directory. With times == nil the time stamps are read from src (before the
+// files are read) and returned; otherwise the recorded ones are applied.
+func copyTree(src, dst string, times fileTimes) (fileTimes, error) {
+	out := fileTimes{}
+	err := filepath.WalkDir(src, func(p string, d fs.DirEntry, err error) error {
 		if err != nil {
 			return err
 		}
@@ -60,12 +66,23 @@ func copyTree(src, dst string) error {
 		if d.IsDir() {
 			return os.MkdirAll(to, 0o755)
 		}
-		var st syscall.Stat_t
-		if err := syscall.Stat(p, &st); err != nil {
-			if os.IsNotExist(err) {
-				return nil
+		var at, mt time.Time
+		if times != nil {
+			t, ok := times[rel]
+			if !ok {
+				return fmt.Errorf("no recorded time stamps for %s", rel)
 			}
-			return err
+			at, mt = t[0], t[1]
+		} else {
+			var st syscall.Stat_t
+			if err := syscall.Stat(p, &st); err != nil {
+				if os.IsNotExist(err) {
+					return nil
+				}
+				return err
+			}
+			at = time.Unix(int64(st.Atim.Sec), int64(st.Atim.Nsec))
+			mt = time.Unix(int64(st.Mtim.Sec), int64(st.Mtim.Nsec))
 		}
 		b, err := os.ReadFile(p)
 		if err != nil {
@@ -77,10 +94,10 @@ func copyTree(src, dst string) error {
 		if err := os.WriteFile(to, b, 0o644); err != nil {
 			return err
 		}
-		at := time.Unix(int64(st.Atim.Sec), int64(st.Atim.Nsec))
-		mt := time.Unix(int64(st.Mtim.Sec), int64(st.Mtim.Nsec))
+		out[rel] = [2]time.Time{at, mt}
 		return os.Chtimes(to, at, mt)
 	})
+	return out, err
 }
 
 // gatedReader hands out data and calls at(k) before delivering the byte at offset k for the
@@ -428,10 +445,11 @@ func crashOne(scratch string, seq int, rng *rand.Rand, cs CrashCase, kind, write
 	// take the image at the chosen place
 	var once sync.Once
 	var imgErr error
+	var imgTimes fileTimes
 	took := false
 	snap := func() {
 		once.Do(func() {
-			imgErr = copyTree(dirA, img)
+			imgTimes, imgErr = copyTree(dirA, img, nil)
 			took = true
 		})
 	}
@@ -538,7 +556,7 @@ func crashOne(scratch string, seq int, rng *rand.Rand, cs CrashCase, kind, write
 	}
 	for ri, rmode := range restarts {
 		dirB := filepath.Join(scratch, fmt.Sprintf("b%d-%d", seq, ri))
-		if err := copyTree(img, dirB); err != nil {
+		if _, err := copyTree(img, dirB, imgTimes); err != nil {
 			return runs, viols, err
 		}
 		run := CrashRun{Case: cs, Writer: writer, Where: wh.name, Restart: rmode, Size: len(newE.data)}
@@ -662,12 +680,14 @@ func crashEvictions(scratch string, rng *rand.Rand, tier string) (runs []CrashRu
 		lru := disk.VerifLruID(fA.Cache)
 		var mu sync.Mutex
 		var imgs []string
+		imgT := map[string]fileTimes{}
 		disk.VerifSetGate(func(id uint64, g int64, point string) {
 			if id == lru && point == "evict" {
 				mu.Lock()
 				p := filepath.Join(scratch, fmt.Sprintf("evimg-%s-%d", mode, len(imgs)))
-				if copyTree(dirA, p) == nil {
+				if t, e := copyTree(dirA, p, nil); e == nil {
 					imgs = append(imgs, p)
+					imgT[p] = t
 				}
 				mu.Unlock()
 			}
@@ -701,15 +721,21 @@ func crashEvictions(scratch string, rng *rand.Rand, tier string) (runs []CrashRu
 				runs = append(runs, run)
 				continue
 			}
-			for _, en := range append(ents, bigE) {
+			for ei, en := range append(ents, bigE) {
+				who := fmt.Sprintf("acknowledged blob #%d", ei+1)
+				if ei == len(ents) {
+					who = "the upload in flight at the kill"
+				}
 				for path, got := range readEntry(fB, en.kind, en.hash, len(en.data)) {
 					switch {
 					case got == nil:
 						run.Results = append(run.Results, "miss")
 					case bytes.Equal(got, en.data):
 						run.Results = append(run.Results, "hit")
+					case len(got) > 0 && got[0] == 0xEE:
+						run.Results = append(run.Results, "error")
 					default:
-						bad("%s returns %d bytes that are not the blob", path, len(got))
+						bad("%s: %s returns %d bytes that are not the blob", who, path, len(got))
 					}
 				}
 			}
